@@ -57,11 +57,12 @@ type callScript struct {
 }
 
 type script struct {
-	id    string
-	group string
-	T     int
-	fixed bool
-	calls []*callScript
+	id     string
+	group  string
+	T      int
+	tickMs int // > 0: this behaviour needs its own tick (e.g. one that brackets the kernel's 1 s SYN retransmission)
+	fixed  bool
+	calls  []*callScript
 }
 
 func loadScript(path string) (*script, error) {
@@ -74,6 +75,9 @@ func loadScript(path string) (*script, error) {
 	}
 	h := recs[0]
 	s := &script{id: strings.TrimSuffix(filepath.Base(path), ".ndjson"), group: h["group"].(string), T: int(h["T"].(float64)), fixed: h["fixed"].(bool)}
+	if x, ok := h["tick_ms"].(float64); ok {
+		s.tickMs = int(x)
+	}
 	byID := map[string]*callScript{}
 	ids := []string{}
 	for id, v := range h["calls"].(map[string]any) {
@@ -210,6 +214,9 @@ type blackhole struct {
 	fd     int
 	port   int
 	parked []net.Conn
+	mu     sync.Mutex
+	served []net.Conn
+	wg     sync.WaitGroup
 }
 
 func newBlackhole() *blackhole {
@@ -243,11 +250,67 @@ func newBlackhole() *blackhole {
 	return nil
 }
 
+// drainAndServe: after `after`, accept whatever sits in the queue (the parked connections are dropped, the client's
+// connection - once its retransmitted SYN got through - is read like any request and then left to stall)
+func (h *blackhole) drainAndServe(f *farm, ctl string, after time.Duration) {
+	h.wg.Add(1)
+	defer h.wg.Done()
+	time.Sleep(after)
+	mine := map[int]bool{}
+	for _, c := range h.parked {
+		mine[c.LocalAddr().(*net.TCPAddr).Port] = true
+	}
+	for {
+		nfd, sa, err := syscall.Accept(h.fd)
+		if err != nil {
+			return
+		}
+		in4, ok := sa.(*syscall.SockaddrInet4)
+		if !ok || mine[in4.Port] {
+			syscall.Close(nfd)
+			continue
+		}
+		file := os.NewFile(uintptr(nfd), "accepted")
+		conn, err := net.FileConn(file)
+		file.Close()
+		if err != nil {
+			continue
+		}
+		h.mu.Lock()
+		h.served = append(h.served, conn)
+		h.mu.Unlock()
+		h.wg.Add(1)
+		go func() {
+			defer h.wg.Done()
+			defer conn.Close()
+			buf := make([]byte, 2048)
+			conn.SetReadDeadline(time.Now().Add(20 * f.tick))
+			n, err := conn.Read(buf)
+			if err != nil {
+				return
+			}
+			req := append([]byte{}, buf[:n]...)
+			if c := f.identify(req); c != nil {
+				f.onRequest(c, "tcp", ctl, &net.UDPAddr{IP: net.IPv4(in4.Addr[0], in4.Addr[1], in4.Addr[2], in4.Addr[3]), Port: in4.Port}, func(b []byte) {})
+			}
+			conn.SetReadDeadline(time.Now().Add(time.Duration(f.sc.T+6) * f.tick))
+			conn.Read(buf) // stall until the client goes away
+		}()
+	}
+}
+
 func (h *blackhole) close() {
 	for _, c := range h.parked {
 		c.Close()
 	}
+	h.mu.Lock()
+	for _, c := range h.served {
+		c.Close()
+	}
+	h.mu.Unlock()
+	syscall.Shutdown(h.fd, syscall.SHUT_RDWR) // unblocks a pending accept (closing the descriptor alone does not)
 	syscall.Close(h.fd)
+	h.wg.Wait()
 }
 
 func (f *farm) close() {
@@ -391,7 +454,7 @@ func (f *farm) onRequest(c *callScript, via, to string, src *net.UDPAddr, send f
 	}
 	acts := []act{}
 	// controllers do not answer function 0x96 (set-address)
-	if c.kind != "setaddr" && !(len(c.plan) == 1 && (c.plan[0].cls == "silence" || c.plan[0].cls == "reset" || c.plan[0].cls == "refused" || c.plan[0].cls == "blackhole")) {
+	if c.kind != "setaddr" && !(len(c.plan) == 1 && (c.plan[0].cls == "silence" || c.plan[0].cls == "reset" || c.plan[0].cls == "refused" || c.plan[0].cls == "blackhole" || c.plan[0].cls == "slowstall")) {
 		for i, p := range c.plan {
 			acts = append(acts, act{at: time.Duration(float64(f.tick)*(float64(p.delay)+0.45)) + time.Duration(i)*time.Millisecond, cls: p.cls, n: i + 1})
 		}
@@ -564,6 +627,9 @@ func runScenario(sc *script, lt *layoutTables, tick time.Duration, seed int64, f
 	// timing self-check: a goroutine that sleeps 1 ms over and over records by how much its wake-ups were late while the
 	// scenario ran. A scenario whose own clockwork was disturbed by more than a fraction of a tick (other processes
 	// hogging the CPUs) proves nothing either way; the orchestrator discounts its rejection.
+	if sc.tickMs > 0 {
+		tick = time.Duration(sc.tickMs) * time.Millisecond
+	}
 	jm := startJitterMonitor()
 	defer jm.stop()
 	log := &evlog{}
@@ -594,6 +660,16 @@ func runScenario(sc *script, lt *layoutTables, tick time.Duration, seed int64, f
 				var ap netip.AddrPort
 				refused := len(c.plan) == 1 && c.plan[0].cls == "refused"
 				switch {
+				case len(c.plan) == 1 && c.plan[0].cls == "slowstall" && path == "tcp":
+					// the accept queue is full when the client's first SYN arrives and is drained 300 ms later: the
+					// handshake completes on the kernel's retransmission (1 s), then the peer reads the request and stalls
+					h := newBlackhole()
+					if h == nil {
+						return M{"id": sc.id, "group": sc.group, "ev": []any{}, "expect": M{}, "hung": false, "skipped": "no blackhole endpoint", "jitter_us": 0, "tick_us": int64(tick / time.Microsecond)}
+					}
+					f.holes[c.ctl] = h
+					ap = netip.AddrPortFrom(netip.AddrFrom4([4]byte{127, 0, 0, 1}), uint16(h.port))
+					go h.drainAndServe(f, c.ctl, 300*time.Millisecond)
 				case len(c.plan) == 1 && c.plan[0].cls == "blackhole" && path == "tcp":
 					h := newBlackhole()
 					if h == nil {
@@ -680,7 +756,12 @@ func runScenario(sc *script, lt *layoutTables, tick time.Duration, seed int64, f
 				if c.kind == "badid" {
 					r["kind"] = map[string]string{"err": "rejected"}[r["kind"].(string)]
 				}
-				log.add(M{"ev": "ret", "c": c.id, "kind": r["kind"], "from": r["from"], "rel": rel, "asklat_us": lat, "elapsed_us": time.Since(tStart).Microseconds()})
+				sbias := tick / 4
+				if r["kind"] == "timeout" {
+					sbias = tick / 2
+				}
+				log.add(M{"ev": "ret", "c": c.id, "kind": r["kind"], "from": r["from"], "rel": rel, "relstart": int((time.Since(tStart) + sbias) / tick),
+					"asklat_us": lat, "elapsed_us": time.Since(tStart).Microseconds()})
 			case <-time.After(time.Duration(4*sc.T+4) * tick):
 				atomic.StoreInt32(&hung, 1)
 				log.add(M{"ev": "hung", "c": c.id})
